@@ -160,6 +160,25 @@ def check(case):
     labels = set()
     labels |= _check_transform(tr, case, case["train"], case["train_index"], fit_cols, cats, facts, False)
     labels |= _check_transform(tr, case, case["test"], case["test_index"], fit_cols, cats, facts, True)
+    # scikit-learn asked for pandas containers (set_config / a pipeline's set_output): the training frame is transformed to the same
+    # named columns with the same values as under the default configuration
+    import sklearn
+    try:
+        plain = tr.transform(train)
+    except Exception:  # noqa: BLE001 - refusals (a removed category met with skip_errors=False) are judged by _check_transform above
+        plain = None
+    wrapped = None
+    if plain is not None:
+        with sklearn.config_context(transform_output="pandas"):
+            wrapped = tr.transform(_frame(case["train"], cols, case["train_index"], cat_cols, case["dtype"]))
+    if wrapped is None:
+        wrapped = plain = pandas.DataFrame()
+    require(list(map(str, wrapped.columns)) == list(map(str, plain.columns)), "pandas-output:column-names",
+            "under transform_output='pandas' the columns are %r, by default %r" % (list(wrapped.columns), list(plain.columns)), facts)
+    def _cells(df):
+        return [[None if (isinstance(v, float) and v != v) or v is None else v for v in row] for row in df.astype(object).values.tolist()]
+    require(_cells(wrapped) == _cells(plain),
+            "pandas-output:values", "under transform_output='pandas' the cells differ from the default configuration's", facts)
     has_missing = any(_is_missing(v) for c in fit_cols for v in case["test"][c])
     has_unseen = any((not _is_missing(v)) and v not in cats[c] for c in fit_cols for v in case["test"][c])
     labels |= {"single" if o["single"] else "indicators", "skip_errors" if o["skip_errors"] else "strict",
